@@ -5,7 +5,7 @@ import io
 import pickle
 
 import mgen
-from common import freephil, enc, tokenizer, AutoT
+from common import freephil, enc, tokenizer, AutoT, obj_j, err_j
 from props import _fetch, _heap
 
 LEVEL = "other"
@@ -27,6 +27,10 @@ TECHNIQUE = 'Lean 4 theorems on a heap (object identity) model + identity-graph 
 RULE = ("masters and source lists x histories of 5-25 API calls (fetch with/without tracking, fetch_diff, extract, format, clone, "
         "as_str at every level, argument interpretation, resolve, pickle/deepcopy/copy round trips, field assignments on "
         "results and shallow copies, in-place edits of deep copies) with a snapshot of every long-lived object after every step; "
+        "one argument interpreter object per master, used all through the history and then for a dense history of 4-12 "
+        "process(arg=) / process(args=) / process_and_fetch calls and copies of the used interpreter (names that several "
+        "parameters match favoured, with and without home scope), every answer compared with a fresh interpreter's and, for "
+        "process(arg=), with the argument-interpreter model; "
         "non-trivial = history has a fetch and a later repeated call")
 ASSUMPTIONS = ["observable state of an object = all slots except tmp"]
 SLOTS_SKIP = {"tmp"}
@@ -116,7 +120,163 @@ REGISTRIES = {
 KEEP_ALIVE = []      # parse results stay referenced for the whole run (caches keyed by weak references must not depend on the collector)
 
 
-def calls(rng, m, ss, arg, mt=None):
+# ---- argument interpretation on ONE shared interpreter object -------------------------------------------------------
+# `master.command_line_argument_interpreter()` returns an object that applications keep and feed many arguments (it caches
+# what it computed from the master). The property: its answers are a function of (master, home scope, argument) - the same
+# as a FRESH interpreter's, whatever was asked before, in whatever order.
+
+def interp_outcome(f, raw=None):
+    """comparable result of an interpreter call: printed scopes (most verbose level), the remaining arguments, what the
+    call printed (the tie-break warning), or the refusal with its full message; raw collects the result object / exception"""
+    buf = io.StringIO()
+    try:
+        with contextlib.redirect_stdout(buf):
+            r = f()
+    except (Exception, freephil.Sorry) as e:
+        if raw is not None:
+            raw.append(e)
+        return ("refused", type(e).__name__, str(e), buf.getvalue())
+    if raw is not None:
+        raw.append(r)
+    if isinstance(r, tuple):
+        return ("ok", r[0].as_str(attributes_level=3), [str(x) for x in r[1]], buf.getvalue())
+    if isinstance(r, list):
+        return ("ok", [x.as_str(attributes_level=3) for x in r], buf.getvalue())
+    return ("ok", r.as_str(attributes_level=3), buf.getvalue())
+
+
+def interp_names(rng, tps):
+    """argument names for a master with parameter paths tps: (all candidate names, those contained in >= 2 paths)"""
+    names = set()
+    for p in tps:
+        comps = p.split(".")
+        for j in range(len(comps)):
+            names.add(".".join(comps[j:]))                       # suffixes on a component boundary (leaf name, ...)
+        j = rng.randrange(len(p))
+        names.add(p[j:].strip(".") or p)                          # a suffix from any character
+        k = rng.randrange(len(p))
+        names.add(p[k:rng.randint(k + 1, len(p))].strip(".") or p)  # a substring
+    names = sorted(names)
+    return names, [n for n in names if sum(1 for p in tps if n in p) >= 2]
+
+
+def interp_pool(rng, tree, tps):
+    """3-7 argument texts; names that several parameters match (decided by the expert-level tie-break or refused as
+    ambiguous) are favoured; values fit the type of a parameter the name matches"""
+    nodes = {p: nd for p, nd in mgen.param_paths(tree, active_only=False) if nd["k"] == "d"}
+    sg = mgen.SourceGen(rng, valid_only=True)
+    names, shared = interp_names(rng, tps) if tps else ([], [])
+    pool = []
+    for _ in range(rng.randint(3, 7)):
+        k = rng.random()
+        if shared and k < 0.55:
+            name = rng.choice(shared)
+        elif names and k < 0.8:
+            name = rng.choice(names)
+        elif tps and k < 0.9:
+            name = rng.choice(tps)
+        else:
+            name = rng.choice(["zz", "nope.a", "s.zz", "a b"])
+        hit = [p for p in tps if name in p and p in nodes]
+        value = sg.value_for(nodes[rng.choice(hit)]) if hit and rng.random() < 0.8 else rng.choice(["1", "x y", "None", "'q r'"])
+        a = rng.choice(["%s=%s", "%s=%s", "%s = %s", " %s= %s "]) % (name, value)
+        if rng.random() < 0.05:
+            a = rng.choice([name, name + "=", "=" + value, name + "='open", "positional"])
+        pool.append(a)
+    return pool
+
+
+def interp_ops(rng, pool, n):
+    """a dense history of calls on one interpreter: process(arg=), process(args=), process_and_fetch (both forms), and the
+    same on copies of the used interpreter (copy / deepcopy / pickle)"""
+    ops = []
+    for _ in range(n):
+        k = rng.random()
+        some = [rng.choice(pool + ["--" + pool[0].strip(), "leftover", " "]) for _ in range(rng.randint(1, 4))]
+        if k < 0.5:
+            ops.append(["process_arg", rng.choice(pool)])
+        elif k < 0.6:
+            ops.append(["process_args", some])
+        elif k < 0.8:
+            ops.append(["process_and_fetch_collect", some])
+        elif k < 0.88:
+            ops.append(["process_and_fetch", some])
+        else:
+            ops.append([rng.choice(["copy", "deepcopy", "pickle"]) + "_then_process_arg", rng.choice(pool)])
+    return ops
+
+
+def interp_apply(itp, op, raw=None):
+    kind, a = op
+    if kind == "process_arg":
+        return interp_outcome(lambda: itp.process(arg=a), raw)
+    if kind == "process_args":
+        return interp_outcome(lambda: itp.process(args=list(a)))
+    if kind == "process_and_fetch_collect":
+        return interp_outcome(lambda: itp.process_and_fetch(list(a), "collect_remaining"))
+    if kind == "process_and_fetch":
+        return interp_outcome(lambda: itp.process_and_fetch(list(a)))
+    how = kind.split("_")[0]
+    dup = {"copy": copy.copy, "deepcopy": copy.deepcopy, "pickle": lambda x: pickle.loads(pickle.dumps(x))}[how]
+    return interp_outcome(lambda: dup(itp).process(arg=a))      # a used interpreter that cannot be copied is an answer too
+
+
+def interp_history(m, home, ops, answers=None, shared=None):
+    """run ops on ONE interpreter of m; every answer must equal the answer of a fresh interpreter of the same master to the
+    same call (for the *_then_process_arg operations: of a fresh interpreter, copies behave like the original).
+    Returns (index of the first history-dependent answer, description) or None. `answers` collects, for the process(arg=)
+    calls, (argument, wire form of the shared interpreter's answer)."""
+    shared = m.command_line_argument_interpreter(home_scope=home) if shared is None else shared
+    for k, op in enumerate(ops):
+        raw = []
+        got = interp_apply(shared, op, raw)
+        if answers is not None and op[0] == "process_arg":
+            answers.append((op[1], interp_impl_j(raw[0])))
+        fresh_op = ["process_arg", op[1]] if op[0].endswith("_then_process_arg") else op
+        want = interp_apply(m.command_line_argument_interpreter(home_scope=home), fresh_op)
+        if got != want:
+            return k, ("%s(%r) as call %d on one argument interpreter (home_scope=%r) answered %r; a fresh interpreter of the "
+                       "same master answers %r: the result depends on the interpreter's history"
+                       % (op[0], op[1], k + 1, home, _short(got), _short(want)))
+    return None
+
+
+def _short(r):
+    return tuple((x[:160] + "...") if isinstance(x, str) and len(x) > 160 else x for x in r)
+
+
+def interp_shrink(mt, home, ops):
+    """the shortest sub-history (greedy removal) that still shows a history-dependent answer on a newly parsed master"""
+    def bad(seq):
+        with contextlib.redirect_stdout(io.StringIO()):
+            r = interp_history(freephil.parse(input_string=mt), home, seq)
+        return r
+    r = bad(ops)
+    if r is None:
+        return None, None
+    ops = ops[:r[0] + 1]
+    k = 0
+    while k < len(ops) - 1:
+        cand = ops[:k] + ops[k + 1:]
+        if bad(cand) is not None:
+            ops = cand
+        else:
+            k += 1
+    r = bad(ops)
+    return ops, r[1]
+
+
+def interp_impl_j(r):
+    """wire form (as in C14) of a process(arg=) result object / exception"""
+    from props import C14
+    if isinstance(r, freephil.scope):
+        return ["ok", [obj_j(o) for o in r.objects]]
+    if isinstance(r, freephil.Sorry):
+        return C14.sorry_j(str(r))
+    return err_j(r)
+
+
+def calls(rng, m, ss, arg, mt=None, shared=None, pool=()):
     """a table of repeatable calls: name -> thunk returning a comparable result"""
     def parse_with(reg):
         def f():
@@ -166,6 +326,15 @@ def calls(rng, m, ss, arg, mt=None):
         with contextlib.redirect_stdout(io.StringIO()):
             return m.command_line_argument_interpreter().process(arg=arg).as_str()
 
+    def interp_shared(op):
+        # the SAME interpreter object all through the history, interleaved with every other call
+        def f():
+            bad = interp_history(m, shared[1], [op], shared=shared[0])
+            if bad:
+                return ("HISTORY-DEPENDENT", bad[1])
+            return interp_apply(shared[0], op)
+        return f
+
     def resolve():
         return [s.resolve_variables().as_str() for s in ss]
 
@@ -178,7 +347,9 @@ def calls(rng, m, ss, arg, mt=None):
     return {"show0": show(0), "show3": show(3), "fetch": fetch_str(), "fetch_track": fetch_str(track_unused_definitions=True),
             "fetch_diff": fetch_str(diff=True), "extract": extract, "format": fmt, "clone": clone, "interp": interp,
             "resolve": resolve, "deepcopy": deep, "pickle": pick,
-            **({"parse_" + r: parse_with(r) for r in REGISTRIES} if mt is not None else {})}
+            **({"parse_" + r: parse_with(r) for r in REGISTRIES} if mt is not None else {}),
+            **({"interp_shared_%d" % k: interp_shared(["process_arg", a]) for k, a in enumerate(pool[:4])} if shared else {}),
+            **({"interp_shared_fetch": interp_shared(["process_and_fetch_collect", list(pool)])} if shared and pool else {})}
 
 
 def guarded(f):
@@ -262,6 +433,7 @@ def run(ctx):
     n = ctx.scale(400, 6000, 1200)
     ccases, creqs, cimpls = [], [], []
     hcases, hreqs, himpls = [], [], []
+    icases, ireqs, iimpls = [], [], []
     for i in range(n):
         if ctx.time_left() < 30:
             ctx.notes.append("stopped early on time budget")
@@ -273,11 +445,22 @@ def run(ctx):
         arg = "%s=1" % rng.choice(paths) if paths else "zz=1"
         m = freephil.parse(input_string=mt)
         ss = [freephil.parse(input_string=s) for s in srcs]
-        table = calls(rng, m, ss, arg, mt)
+        # one argument interpreter per master object, kept for the whole history (and the dense history after it)
+        tps = []
+        for l in m.all_definitions():
+            if l.path not in tps:
+                tps.append(l.path)
+        home = rng.choice([None, None, None] + sorted({p.rsplit(".", 1)[0] for p in tps if "." in p}) + ["zz"])
+        pool = interp_pool(rng, tree, tps)
+        iops = interp_ops(rng, pool, rng.choice([4, 8, 12]))
+        shared = m.command_line_argument_interpreter(home_scope=home)
+        table = calls(rng, m, ss, arg, mt, shared=(shared, home), pool=pool)
         names = list(table)
         history = [rng.choice(names) for _ in range(rng.choice([5, 10, 25]))]
         ctx.case((mt, tuple(srcs), tuple(history)), nontrivial=len(set(history)) < len(history))
-        case = {"master": mt, "sources": srcs, "history": history}
+        case = {"master": mt, "sources": srcs, "history": history,
+                "interpreter": {"home_scope": home, "arguments": {"interp_shared_%d" % k: a for k, a in enumerate(pool[:4])},
+                                "fetch_arguments": pool, "then_on_the_same_interpreter": iops}}
         long_lived = {}
         reach(m, long_lived)
         for s in ss:
@@ -305,6 +488,33 @@ def run(ctx):
             if (m.as_str(attributes_level=3), [s.as_str(attributes_level=3) for s in ss]) != print0:
                 f = "step %d: %s changed the printed form of the master or a source" % (step, name)
                 break
+        # the dense interpreter history, on the interpreter the history above has already used; afterwards the long-lived
+        # objects must be as they were
+        if f is None:
+            ians = []
+            bad = interp_history(m, home, iops, answers=ians, shared=shared)
+            n_amb = sum(1 for op in iops if op[0] == "process_arg" and op[1] in pool
+                        and sum(1 for p in tps if op[1].split("=")[0].strip() in p) >= 2)
+            ctx.count("interp_histories_with_%s_many_match_names" % min(n_amb, 2))
+            for op in iops:
+                ctx.count("interp_" + op[0])
+            if bad:
+                named = dict({"interp_shared_%d" % k: ["process_arg", a] for k, a in enumerate(pool[:4])},
+                             interp_shared_fetch=["process_and_fetch_collect", list(pool)])
+                small, what = interp_shrink(mt, home, [named[h] for h in history if h in named] + iops)
+                if small is not None:
+                    case = dict(case, interpreter_history_minimal={"master": mt, "home_scope": home, "calls": small})
+                    f = what
+                else:
+                    f = "after the history above: " + bad[1]
+            elif diff_snap(snap0, slot_snapshot(long_lived)) or \
+                    (m.as_str(attributes_level=3), [s.as_str(attributes_level=3) for s in ss]) != print0:
+                f = "argument interpretation on a shared interpreter changed the master or a source"
+            elif ctx.mode != "impl-only":
+                for a, ia in ians:
+                    ireqs.append(["process_arg", enc(mt), None if home is None else enc(home), enc(a)])
+                    iimpls.append(ia)
+                    icases.append({"master": mt, "home": home, "arg": a, "answered_by": "an interpreter with a history"})
         # the model's fetch is a function of the ORIGINAL texts: after the whole history the long-lived master and
         # sources must still merge to what the model computes from the texts they were parsed from
         if f is None and ctx.mode != "impl-only":
@@ -342,6 +552,10 @@ def run(ctx):
         ctx.corr("fetch_after_history", ccases, creqs, cimpls)
     if hreqs:
         ctx.corr("heap_copy_graph", hcases, hreqs, himpls)
+    # process(arg=) is a function of (master text, home scope, argument) in the model: what an interpreter WITH a history
+    # answered is compared with that one value
+    if ireqs:
+        ctx.corr("process_arg_on_used_interpreter", icases, ireqs, iimpls)
     # fetch_diff(...).as_str etc. are covered above; interface.index(M) writes captions on shared children (D21)
 
 
@@ -356,4 +570,12 @@ def finding_still_fails(f):
 
 def replay(payload):
     print(payload["failure"])
+    case = payload["failure"].get("case", {}) if isinstance(payload["failure"], dict) else {}
+    mini = case.get("interpreter_history_minimal")
+    if mini:
+        # the minimal interpreter history is self-contained: run it again on a newly parsed master
+        with contextlib.redirect_stdout(io.StringIO()):
+            r = interp_history(freephil.parse(input_string=mini["master"]), mini["home_scope"], mini["calls"])
+        print("interpreter history now: %s" % ("every answer equals a fresh interpreter's" if r is None else r[1]))
+        return r is None
     return False
